@@ -300,6 +300,9 @@ def strip_views(n):
         if k == "ctor" and n.get("cls") in ("std::basic_string_view", "std::basic_string") and len(args) == 1:
             n = args[0]
             continue
+        if k == "ctor" and n.get("copy") and len(args) == 1:      # copy / move construction of any class
+            n = args[0]
+            continue
         if k == "mcall" and "::operator std::basic_string_view" in (n.get("callee") or ""):
             n = n.get("obj")
             continue
